@@ -333,6 +333,33 @@ func (u *Upgrader) Upgrade(w http.ResponseWriter, r *http.Request, responseHeade
 		}
 	}
 
+	// A transferred conn is handled by the poller as soon as it has been added
+	// to the engine, its message and close callbacks must wait until the open
+	// handler is done.
+	var chOpened chan struct{}
+	defer func() {
+		if chOpened != nil {
+			close(chOpened)
+		}
+	}()
+	waitOpened := func(c *Conn) {
+		ch := make(chan struct{})
+		chOpened = ch
+		exec, onClose := c.Execute, c.onClose
+		c.Execute = func(f func()) bool {
+			return exec(func() {
+				<-ch
+				f()
+			})
+		}
+		if onClose != nil {
+			c.onClose = func(c *Conn, err error) {
+				<-ch
+				onClose(c, err)
+			}
+		}
+	}
+
 	clearNBCWSSession := func() {
 		if nbc != nil {
 			if _, ok = nbc.Session().(*Conn); ok {
@@ -387,6 +414,7 @@ func (u *Upgrader) Upgrade(w http.ResponseWriter, r *http.Request, responseHeade
 				if engine.EpollMod == nbio.EPOLLET && engine.EPOLLONESHOT == nbio.EPOLLONESHOT {
 					wsc.Execute = nbhttp.SyncExecutor
 				}
+				waitOpened(wsc)
 				if nbhttpConn != nil {
 					nbhttpConn.Parser = nil
 				}
@@ -478,6 +506,7 @@ func (u *Upgrader) Upgrade(w http.ResponseWriter, r *http.Request, responseHeade
 			if engine.EpollMod == nbio.EPOLLET && engine.EPOLLONESHOT == nbio.EPOLLONESHOT {
 				wsc.Execute = nbhttp.SyncExecutor
 			}
+			waitOpened(wsc)
 			if nbhttpConn != nil {
 				nbhttpConn.Parser = nil
 			}
